@@ -76,3 +76,12 @@ func (s *Swarm) VerifFlushPeers() {
 		p.processSendQueue()
 	}
 }
+
+// VerifDetach drops the references the swarm holds to the rest of a closed service. The mesh
+// router cannot be stopped (its actor goroutines stay) and keeps the swarm reachable; the
+// monitors create and discard many services per process.
+func (s *Swarm) VerifDetach() {
+	s.OnSubscribe, s.OnUnsubscribe, s.OnDisconnect, s.OnMessage = nil, nil, nil, nil
+	s.state = event.NewState("")
+	s.members = newMemberlist(s.newPeer)
+}
